@@ -2,6 +2,7 @@ import Rtcm.Model.Df
 import Rtcm.Gen.DfTable
 import Rtcm.Proofs.DfQuant
 import Rtcm.Props.C08
+import Rtcm.Proofs.BiasFloat
 /-!
 # C11  Quantisation picks the nearest representable value
 
@@ -257,5 +258,81 @@ theorem quantise_monotone' (s : DfSpec) (bits bits' : Nat) (hw : wf s = true)
   ⟨_, _, quantise_eq s bits hw hf hin, quantise_eq s bits' hw hf hin',
     (inrange_no_wrap s bits hw hf hin).2, (inrange_no_wrap s bits' hw hf hin').2,
     quantise_monotone s bits bits' hw hf h⟩
+
+/-! ## The hand-written scaled fields
+
+`bias_m` of 1059 / 1065 (`f32`, 0.01 m, 14 bits) and of 1230 (`f32`, 0.02 m, 16 bits) are not `df!`
+rows: `Bias.quantBias` / `Bias.dequantBias` model their own arithmetic (`bias /= res; if bias > 0.0
+{ bias + 0.5 } else { bias - 0.5 } as i16`). `BiasFloat.quantBias_eq` identifies that arithmetic with
+the `df!` quantiser of a synthetic well-formed row, so the theorems above apply to them. -/
+
+/-- the synthetic rows of the two bias grids -/
+abbrev bias14 : DfSpec := BiasFloat.spec 14 1
+abbrev bias16 : DfSpec := BiasFloat.spec 16 2
+
+theorem bias14_wf : wf bias14 = true := BiasFloat.wf14
+theorem bias16_wf : wf bias16 = true := BiasFloat.wf16
+
+/-- what the bias encoder puts for an admissible `bias_m` (any of the two grids) -/
+theorem bias_quantise_eq (len m : Nat) (res : F)
+    (hres : evalF binary32 (.dec m (-2)) = res) (hw : wf (BiasFloat.spec len m) = true)
+    (bits : Nat) (hin : Input (BiasFloat.spec len m) bits) :
+    Bias.quantBias res bits = Bits.ofInt 16 (kOf (BiasFloat.spec len m) bits) := by
+  have h1 := quantise_eq (BiasFloat.spec len m) bits hw rfl hin
+  rw [BiasFloat.quantBias_eq len m res hres bits] at h1
+  injection h1
+
+/-- 1059 / 1065: the selected step is a neighbour of the exact grid coordinate, the value written
+does not wrap, and the value read back is within half a step plus the float slack of the input -/
+theorem bias14_nearest (bits : Nat) (hin : Input bias14 bits) :
+    Bias.quantBias Bias.res001 bits = Bits.ofInt 16 (kOf bias14 bits) ∧
+      (kOf bias14 bits = ⌊tOf bias14 bits⌋ ∨ kOf bias14 bits = ⌈tOf bias14 bits⌉) ∧
+      (-8192 ≤ kOf bias14 bits ∧ kOf bias14 bits ≤ 8191) ∧
+      (ofBits binary32 (Bias.dequantBias Bias.res001 (kOf bias14 bits))).isFinite = true ∧
+      |valOf bias14 (Bias.dequantBias Bias.res001 (kOf bias14 bits)) - valOf bias14 bits| ≤
+        resVal bias14 / 2 + slack bias14 := by
+  refine ⟨bias_quantise_eq 14 1 _ BiasFloat.evalF_001 bias14_wf bits hin,
+    (quantise_neighbour bias14 bits bias14_wf rfl hin).2, ?_, ?_⟩
+  · have h := (inrange_no_wrap bias14 bits bias14_wf rfl hin).1
+    unfold DfWf.InRange DfWf.svLo DfWf.svHi at h
+    simp only [bias14, BiasFloat.spec] at h ⊢
+    omega
+  · obtain ⟨b', h1, h2, h3⟩ := quantise_error ⟨true⟩ bias14 bits bias14_wf rfl hin
+    rw [BiasFloat.dequantBias_eq ⟨true⟩ 14 1 _ BiasFloat.evalF_001] at h1
+    injection h1 with h1
+    injection h1 with h1
+    subst h1
+    exact ⟨h2, h3⟩
+
+/-- 1230: the same on the 0.02 m / 16-bit grid -/
+theorem bias16_nearest (bits : Nat) (hin : Input bias16 bits) :
+    Bias.quantBias Bias.res002 bits = Bits.ofInt 16 (kOf bias16 bits) ∧
+      (kOf bias16 bits = ⌊tOf bias16 bits⌋ ∨ kOf bias16 bits = ⌈tOf bias16 bits⌉) ∧
+      (-32768 ≤ kOf bias16 bits ∧ kOf bias16 bits ≤ 32767) ∧
+      (ofBits binary32 (Bias.dequantBias Bias.res002 (kOf bias16 bits))).isFinite = true ∧
+      |valOf bias16 (Bias.dequantBias Bias.res002 (kOf bias16 bits)) - valOf bias16 bits| ≤
+        resVal bias16 / 2 + slack bias16 := by
+  refine ⟨bias_quantise_eq 16 2 _ BiasFloat.evalF_002 bias16_wf bits hin,
+    (quantise_neighbour bias16 bits bias16_wf rfl hin).2, ?_, ?_⟩
+  · have h := (inrange_no_wrap bias16 bits bias16_wf rfl hin).1
+    unfold DfWf.InRange DfWf.svLo DfWf.svHi at h
+    simp only [bias16, BiasFloat.spec] at h ⊢
+    omega
+  · obtain ⟨b', h1, h2, h3⟩ := quantise_error ⟨true⟩ bias16 bits bias16_wf rfl hin
+    rw [BiasFloat.dequantBias_eq ⟨true⟩ 16 2 _ BiasFloat.evalF_002] at h1
+    injection h1 with h1
+    injection h1 with h1
+    subst h1
+    exact ⟨h2, h3⟩
+
+/-- bias quantisation is monotone (both grids; no range hypothesis needed) -/
+theorem bias_monotone (bits bits' : Nat) :
+    (valOf bias14 bits ≤ valOf bias14 bits' → kOf bias14 bits ≤ kOf bias14 bits') ∧
+    (valOf bias16 bits ≤ valOf bias16 bits' → kOf bias16 bits ≤ kOf bias16 bits') :=
+  ⟨quantise_monotone bias14 bits bits' bias14_wf rfl, quantise_monotone bias16 bits bits' bias16_wf rfl⟩
+
+/-- a bias just below zero (−0.001 m = 0xBA83126F) is admissible and is encoded as step 0, not −1 -/
+example : Input bias14 0xBA83126F ∧ kOf bias14 0xBA83126F = 0 :=
+  ⟨⟨by decide +kernel, by decide +kernel, by decide +kernel⟩, by decide +kernel⟩
 
 end Rtcm.C11
